@@ -636,19 +636,72 @@ def gen_terrain(rng, maxs):
     else:
         a = [[float(rng.choice([0, 3]))] * w for _ in range(h)]
         a = [[a[0][0]] * w for _ in range(h)]
-    dtype = rng.choice(["float64", "float64", "float32", "int32", "int64"])
-    if kind in ("dyadic", "rowrelief") and dtype.startswith("int"):
+    dtype = rng.choice(DTYPES)
+    if kind in ("dyadic", "rowrelief") and not dtype.startswith("float"):
         dtype = "float64"
-    if kind == "bumps" and dtype.startswith("int"):
+    if kind == "bumps" and not dtype.startswith("float"):
         a = [[float(int(x)) for x in row] for row in a]
-    oe = rng.choice([0, 0, 1, -1, 5])
+    oe = rng.choice([0, 0, 1, -1, 5, 0.5, -0.5])
     if kind == "rowrelief":
         oe = rng.choice([0, 1, 1, 0.5, 2])
-    return dict(kind=kind, dtype=dtype, a=a, vr=vr, vc=vc,
-                oe=oe, te=rng.choice([0, 0, 2, 1, 0.5]),
-                dx=rng.choice([1.0, 1.0, 2.0, 0.5]), dy=rng.choice([1.0, 1.0, 0.5, 2.0]),
-                x0=rng.choice([0.0, 10.0, -3.0]), y0=rng.choice([0.0, 5.0]),
-                off=rng.choice([0.0, 0.0, 0.25, -0.25]))
+    c = dict(kind=kind, dtype=dtype, a=a, vr=vr, vc=vc, oe=oe, te=rng.choice([0, 0, 2, 1, 0.5]))
+    c.update(gen_coords(rng))
+    return c
+
+
+DTYPES = ["float64", "float64", "float32", "int32", "int64", "int16"]
+
+# Coordinate / attribute kinds of the DataArray handed to the public function.  Steps and origins are dyadic, so that
+# `c0 + j * step` and `(c[-1] - c[0]) / (n - 1)` are exact in float64 (the exact seam 0 and the exact wrapper seam need that).
+STEPS = [1.0, 1.0, 2.0, 0.5, 0.25, 1.5, 0.75, 30.0]
+X0S = [0.0, 10.0, -3.0, 500000.0, -0.75]
+Y0S = [0.0, 5.0, 4100000.0, -7.5]
+OFFS = [0.0, 0.0, 0.0, 0.25, -0.25, 0.375, -0.4375]
+
+
+def gen_coords(rng):
+    """the coordinate arrays (ascending / descending, fractional steps, non-square cells, offsets), where the observer is
+    given (at a centre, off-centre -- the nearest centre rule --, beyond the edge cell's centre: clamped to the raster's
+    edge), and the `res` attribute (none / consistent with the coordinates / STALE: disagreeing with them, scalar or
+    per-axis; what xarray leaves behind after a strided selection, a coarsen with keep_attrs, rescaled coordinates)"""
+    dx = rng.choice(STEPS) * rng.choice([1, 1, -1])
+    dy = rng.choice(STEPS) * rng.choice([1, -1, -1])
+    if rng.random() < 0.4:
+        dy = math.copysign(abs(dx), dy)                     # square cells
+    c = dict(dx=dx, dy=dy, x0=rng.choice(X0S), y0=rng.choice(Y0S), off=0.0,
+             offx=rng.choice(OFFS), offy=rng.choice(OFFS))
+    k = rng.choice(["none", "ok", "ok", "stale", "stale", "stale"])
+    form = rng.choice(["tuple", "tuple", "list", "scalar", "array"])
+    if k == "none":
+        c.update(res_kind="none", res_form="none", res_val=None)
+    elif k == "ok":
+        # consistent with the coordinates: the magnitudes (what rioxarray / the generators of xrspatial write) or the signed steps
+        sgn = rng.choice([True, False])
+        val = [dx if sgn else abs(dx), dy if sgn else abs(dy)]
+        if form == "scalar":
+            if abs(dx) == abs(dy):
+                val = abs(dx)
+            else:
+                form = "tuple"
+        c.update(res_kind="ok", res_form=form, res_val=val)
+    else:
+        fx, fy = rng.choice([(2, 1), (1, 2), (0.5, 1), (2, 2), (1, 3), (4, 0.5), (3, 3)])
+        if form == "scalar":
+            val = rng.choice([abs(dx) * 2, abs(dy) * 3, 1.0 if (abs(dx), abs(dy)) != (1.0, 1.0) else 7.0, 1 if abs(dx) != 1.0 else 2])
+        else:
+            val = [abs(dx) * fx, abs(dy) * fy]
+        c.update(res_kind="stale", res_form=form, res_val=val)
+    return c
+
+
+def coord_tags(c):
+    offx, offy = c.get("offx", c.get("off", 0.0)), c.get("offy", c.get("off", 0.0))
+    frac = any(abs(v) != int(abs(v)) for v in (c["dx"], c["dy"]))
+    return ["coords:y-" + ("descending" if c["dy"] < 0 else "ascending"), "coords:x-" + ("descending" if c["dx"] < 0 else "ascending"),
+            "step:" + ("fractional" if frac else "integral"),
+            "origin:" + ("large" if max(abs(c["x0"]), abs(c["y0"])) > 1000 else "small"),
+            "observer-given:" + ("at-centre" if offx == 0 and offy == 0 else "off-centre"),
+            "attrs:res-" + c.get("res_kind", "ok") + ("" if c.get("res_kind", "ok") == "none" else "-" + c.get("res_form", "tuple"))]
 
 
 def terrain_setup(c):
@@ -664,15 +717,38 @@ def terrain_setup(c):
     return a, xs, ys, float(ew), float(ns), float(velev), vt
 
 
+def res_attrs(c):
+    """the attributes of the DataArray: cases recorded before the attrs dimension existed carry the consistent tuple"""
+    form = c.get("res_form")
+    if form is None:
+        return {"res": (c["dx"], c["dy"])}
+    if form == "none":
+        return {}
+    v = c["res_val"]
+    if form == "scalar":
+        return {"res": v}
+    if form == "tuple":
+        return {"res": tuple(v)}
+    if form == "list":
+        return {"res": list(v)}
+    return {"res": np.array(v, dtype=np.float64)}
+
+
+def observer_xy(c, xs, ys):
+    """the observer in data space: at / off the centre of cell (vr, vc), never nearer to another centre; a position beyond
+    the centre of an edge cell is clamped to the raster's edge (outside, the function raises ValueError)"""
+    x = xs[c["vc"]] + c.get("offx", c.get("off", 0.0)) * c["dx"]
+    y = ys[c["vr"]] + c.get("offy", c.get("off", 0.0)) * c["dy"]
+    x = min(max(x, xs.min()), xs.max())
+    y = min(max(y, ys.min()), ys.max())
+    return float(x), float(y)
+
+
 def public_viewshed(c):
     import xarray as xr
     a, xs, ys, ew, ns, velev, vt = terrain_setup(c)
-    da = xr.DataArray(a.copy(), dims=["y", "x"], coords={"y": ys, "x": xs}, attrs={"res": (c["dx"], c["dy"])})
-    # the observer is given in data space, possibly off the cell centre (nearest cell is selected)
-    x = xs[c["vc"]] + c["off"] * c["dx"]
-    y = ys[c["vr"]] + c["off"] * c["dy"]
-    x = min(max(x, xs.min()), xs.max())
-    y = min(max(y, ys.min()), ys.max())
+    da = xr.DataArray(a.copy(), dims=["y", "x"], coords={"y": ys, "x": xs}, attrs=res_attrs(c))
+    x, y = observer_xy(c, xs, ys)
     out = V().viewshed(da, x=x, y=y, observer_elev=c["oe"], target_elev=c["te"])
     return np.asarray(out.values), out
 
@@ -993,6 +1069,228 @@ def oracle_terrain(c):
             if p != -1.0 and not (0.0 <= p <= 180.0):
                 return f"cell ({i},{j}) holds {p} outside [0,180]", None
     return None, (ops, ev, data, ref, pub, notes)
+
+
+# ---------------------------------------------------------------- the wrapper seam: what `_viewshed_cpu` feeds the kernels
+def record_wrapper(c, x=None, y=None):
+    """the public function with the two kernels it calls -- module globals of viewshed.py -- wrapped (no source hook):
+    returns (output array, what `_init_event_list` and `_viewshed_cpu_sweep` were called with, the DataArray)"""
+    import inspect
+    import xarray as xr
+    v = V()
+    a, xs, ys, ew, ns, velev, vt = terrain_setup(c)
+    da = xr.DataArray(a.copy(), dims=["y", "x"], coords={"y": ys, "x": xs}, attrs=res_attrs(c))
+    if x is None:
+        x, y = observer_xy(c, xs, ys)
+    rec = {}
+    o_init, o_sweep = v._init_event_list, v._viewshed_cpu_sweep
+    sig_i, sig_s = inspect.signature(o_init.py_func), inspect.signature(o_sweep.py_func)
+
+    def w_init(*ar, **kw):
+        b = sig_i.bind(*ar, **kw).arguments
+        rec["init"] = dict(raster_dtype=str(b["raster"].dtype), raster=np.array(b["raster"]), vp_row=int(b["vp_row"]),
+                           vp_col=int(b["vp_col"]), event_list_shape=tuple(b["event_list"].shape),
+                           event_list_zero=not b["event_list"].any(), data_shape=tuple(b["data"].shape),
+                           data_zero=not b["data"].any(), grid_shape=tuple(b["visibility_grid"].shape),
+                           grid_filled=bool((b["visibility_grid"] == -1.0).all()))
+        return o_init(*ar, **kw)
+
+    def w_sweep(*ar, **kw):
+        b = sig_s.bind(*ar, **kw).arguments
+        rec["sweep"] = dict(raster_dtype=str(b["raster"].dtype), vr=int(b["vp_row"]), vc=int(b["vp_col"]),
+                            velev=float(b["vp_elev"]), vt=float(b["vp_target"]), ew=float(b["ew_res"]), ns=float(b["ns_res"]),
+                            rcts=np.array(b["event_rcts"]), aes=np.array(b["event_aes"]), data=np.array(b["data"]),
+                            rcts_dtype=str(b["event_rcts"].dtype), aes_dtype=str(b["event_aes"].dtype))
+        return o_sweep(*ar, **kw)
+    v._init_event_list, v._viewshed_cpu_sweep = w_init, w_sweep
+    try:
+        out = v.viewshed(da, x=x, y=y, observer_elev=c["oe"], target_elev=c["te"])
+    finally:
+        v._init_event_list, v._viewshed_cpu_sweep = o_init, o_sweep
+    return np.asarray(out.values), rec, da
+
+
+def wrap_request(c, x, y):
+    from fractions import Fraction
+    a, xs, ys, ew, ns, velev, vt = terrain_setup(c)
+    F = lambda q: tok(Fraction(float(q)))
+    return (f"vs_wrap grid={grid_tok(a.astype(np.float64))} xs={','.join(F(t) for t in xs)} ys={','.join(F(t) for t in ys)} "
+            f"x={F(x)} y={F(y)} oe={F(c['oe'])} te={F(c['te'])}")
+
+
+def compare_wrapper(c, rec, rep, rep_ev):
+    """what the real wrapper handed to the kernels against Model/ViewshedWrapper.lean (`vs_wrap`: observer cell, cell sizes,
+    eye elevation, target offset -- exact rationals) and, for the event arrays it sorted and split itself, against
+    Model/ViewshedEvents.lean at the model's observer cell (`vs_events`)"""
+    from fractions import Fraction
+    out = []
+    if "sweep" not in rec or "init" not in rec:
+        return ["the wrapper did not call `_init_event_list` and `_viewshed_cpu_sweep`"]
+    sw, ini = rec["sweep"], rec["init"]
+    if rep.startswith(("err", "bad")):
+        return [f"model: {rep[:120]}; real wrapper passes observer {(sw['vr'], sw['vc'])}, cell sizes {(sw['ew'], sw['ns'])}"]
+    f = dict(p.split("=", 1) for p in rep.split(" ") if "=" in p)
+    for name, real, model in (("observer row", sw["vr"], int(f["vr"])), ("observer column", sw["vc"], int(f["vc"])),
+                              ("ew_res", Fraction(sw["ew"]), untok_exact(f["ew"])), ("ns_res", Fraction(sw["ns"]), untok_exact(f["ns"])),
+                              ("viewpoint elevation", Fraction(sw["velev"]), untok_exact(f["velev"])),
+                              ("viewpoint target", Fraction(sw["vt"]), untok_exact(f["vt"]))):
+        if real != model:
+            out.append(f"{name}: the wrapper passes {float(real) if not isinstance(real, int) else real}, model {float(model) if not isinstance(model, int) else model}")
+    if (ini["vp_row"], ini["vp_col"]) != (sw["vr"], sw["vc"]):
+        out.append(f"`_init_event_list` gets observer {(ini['vp_row'], ini['vp_col'])}, the sweep {(sw['vr'], sw['vc'])}")
+    h, w = len(c["a"]), len(c["a"][0])
+    want = dict(raster_dtype="float64", event_list_shape=(3 * (h * w - 1), 7), event_list_zero=True, data_shape=(3, w),
+                data_zero=True, grid_shape=(h, w), grid_filled=True)
+    for k, v_ in want.items():
+        if ini[k] != v_:
+            out.append(f"`_init_event_list` argument property {k}: {ini[k]}, expected {v_}")
+    a64 = np.array(c["a"], dtype=np.float64).astype(c["dtype"]).astype(np.float64)
+    if not np.array_equal(ini["raster"], a64):
+        out.append("`_init_event_list` does not get the terrain cast to float64")
+    if (sw["raster_dtype"], sw["rcts_dtype"], sw["aes_dtype"]) != ("float64", "int64", "float64"):
+        out.append(f"dtypes passed to the sweep (raster, event_rcts, event_aes): {(sw['raster_dtype'], sw['rcts_dtype'], sw['aes_dtype'])}")
+    if out or rep_ev is None:
+        return out
+    if rep_ev.startswith(("err", "bad")):
+        return ["driver (vs_events): " + rep_ev[:200]]
+    g = dict(p.split("=", 1) for p in rep_ev.split(" ") if "=" in p)
+    mev = [t.split(":") for t in g.get("ev", "").split(";") if t]
+    if len(mev) != len(sw["rcts"]) or len(mev) != len(sw["aes"]):
+        return [f"{len(sw['rcts'])} events passed to the sweep, {len(mev)} model events"]
+    for k, m in enumerate(mev):
+        real = tuple(int(t) for t in sw["rcts"][k])
+        if real != tuple(int(t) for t in m[:3]):
+            out.append(f"sorted position {k}: the wrapper passes event {real}, model {tuple(int(t) for t in m[:3])}")
+            break
+        if tuple(Fraction(float(t)) for t in sw["aes"][k][1:4]) != tuple(untok_exact(t) for t in m[5:8]):
+            out.append(f"event {real}: elevations passed {tuple(float(t) for t in sw['aes'][k][1:4])} differ from the model's")
+            break
+    if k_nondecreasing(sw["aes"][:, 0]) is False:
+        out.append("the bearings of the events passed to the sweep are not sorted")
+    mdata = [tuple(untok_exact(t) for t in d.split(":")) for d in g.get("data", "").split(";") if d]
+    rdata = [tuple(Fraction(float(sw["data"][k][j])) for k in range(3)) for j in range(sw["data"].shape[1])]
+    if mdata != rdata:
+        out.append("the observer-row buffer `data` passed to the sweep differs from the model's")
+    return out
+
+
+def k_nondecreasing(v):
+    return bool(np.all(v[1:] >= v[:-1]))
+
+
+def oracle_public(c, pub):
+    """the public function's output against the line-of-sight model evaluated on the terrain geometry alone -- cell sizes
+    from the COORDINATES, observer = the cell whose centre is nearest to the given position (checked here, not taken from the
+    generator) -- and the output rule.  Light version of `oracle_terrain` (no event / node comparison, no list reference:
+    a cell whose verdict hinges on a tie is only checked for the output rule when reported visible)."""
+    a, xs, ys, ew, ns, velev, vt = terrain_setup(c)
+    x, y = observer_xy(c, xs, ys)
+    vr, vc = c["vr"], c["vc"]
+    dy_, dx_ = np.abs(ys - y), np.abs(xs - x)
+    if int(np.argmin(dy_)) != vr or int(np.argmin(dx_)) != vc or (dy_ == dy_[vr]).sum() != 1 or (dx_ == dx_[vc]).sum() != 1:
+        return None       # the nearest centre is not unique / not the intended cell: outside this oracle
+    if pub.shape != a.shape:
+        return f"output shape {pub.shape}"
+    if float(pub[vr, vc]) != 180.0:
+        where = [tuple(int(t) for t in q) for q in np.argwhere(pub == 180.0)]
+        return (f"the observer's cell ({vr},{vc}) -- the cell whose centre is nearest to the observer (x={x}, y={y}) -- holds "
+                f"{float(pub[vr, vc])}, not 180 (180 is at {where})")
+    a64 = a.astype(np.float64)
+    geo = geo_reference(c)
+    for (i, j), vis in geo.items():
+        p = float(pub[i, j])
+        if vis is not None and (p != -1.0) != vis:
+            return (f"cell ({i},{j}) is {'invisible' if p == -1.0 else 'visible'} in viewshed() but "
+                    f"{'visible' if vis else 'invisible'} in the line-of-sight model evaluated on the terrain geometry "
+                    f"(cell sizes = coordinate spacing {(ew, ns)})")
+        if p != -1.0:
+            dist = math.hypot((j - vc) * ew, (i - vr) * ns)
+            e = 90.0 + math.degrees(math.atan2((a64[i, j] + vt) - velev, dist))
+            if abs(p - e) > 1e-9 * 180:
+                return (f"cell ({i},{j}) holds {p}, the output rule gives {e} (horizontal distance {dist} from the coordinate "
+                        f"spacing {(ew, ns)}, attrs {res_attrs(c)})")
+            if not (0.0 <= p <= 180.0):
+                return f"cell ({i},{j}) holds {p} outside [0,180]"
+    return None
+
+
+def gen_wrapper_case(rng, maxs):
+    c = gen_terrain(rng, maxs)
+    c["kind"] = "wrap-" + c["kind"]
+    return c
+
+
+def wrapper_seam(r, n, maxs):
+    """many small terrains x coordinate / attrs kinds through the public function: (1) the light geometric oracle;
+    (2) what the wrapper passes to the kernels against Model/ViewshedWrapper.lean + Model/ViewshedEvents.lean, exactly;
+    (3) observers exactly half way between two centres and outside the raster: model vs real only (the tie rule, ValueError);
+    (4) the DataArray afterwards: cast to float64 in place (the documented exception), coordinates and attrs untouched"""
+    reqs, meta = [], []
+    for s_ in range(n):
+        c = gen_wrapper_case(r.rng, maxs)
+        a, xs, ys, ew, ns, velev, vt = terrain_setup(c)
+        h, w = a.shape
+        mode = r.rng.choice(["in", "in", "in", "in", "in", "in", "tie", "outside"])
+        x, y = observer_xy(c, xs, ys)
+        if mode == "tie":
+            # exactly half way between two centres in one or both axes
+            if r.rng.random() < 0.7 and c["vc"] + 1 < w:
+                x = float(xs[c["vc"]] + 0.5 * c["dx"])
+            if r.rng.random() < 0.7 and c["vr"] + 1 < h:
+                y = float(ys[c["vr"]] + 0.5 * c["dy"])
+        elif mode == "outside":
+            if r.rng.random() < 0.5:
+                x = float(r.rng.choice([xs.min() - abs(c["dx"]) * r.rng.choice([0.25, 1, 3]), xs.max() + abs(c["dx"]) * r.rng.choice([0.25, 1])]))
+            else:
+                y = float(r.rng.choice([ys.min() - abs(c["dy"]) * r.rng.choice([0.25, 1]), ys.max() + abs(c["dy"]) * r.rng.choice([0.25, 1, 3])]))
+        key = dict(c, mode=mode, x=x, y=y)
+        r.case(case_key(key), desc=dict(key, a="..") if s_ == 0 else None, nontrivial=True,
+               tags=["wrapper:" + mode, "dtype:" + c["dtype"], f"oe:{c['oe']}", f"te:{c['te']}",
+                     "cells:square" if abs(c["dx"]) == abs(c["dy"]) else "cells:non-square"] + coord_tags(c))
+        try:
+            pub, rec, da = record_wrapper(c, x, y)
+            err = None
+        except Exception as ex:
+            pub, rec, da, err = None, {}, None, type(ex).__name__
+        reqs.append(wrap_request(c, x, y))
+        meta.append((c, mode, x, y, pub, rec, err))
+        if err is not None and mode != "outside":
+            r.fail("raises", f"viewshed raised {err} for an observer inside the raster", c)
+            continue
+        if err is None:
+            # (4) the input object afterwards
+            if not (np.array_equal(da["x"].values, xs) and np.array_equal(da["y"].values, ys)) or set(da.attrs) != set(res_attrs(c)):
+                r.disagree("wrapper-glue", dict(stream="wrapper", terrain=c), "coordinates / attrs of the input DataArray changed", "untouched")
+            if str(da.dtype) != "float64" or not np.array_equal(da.values, a.astype(np.float64)):
+                r.disagree("wrapper-glue", dict(stream="wrapper", terrain=c), f"input DataArray afterwards: dtype {da.dtype}",
+                           "the same values cast to float64 (in place, the documented exception)")
+        if mode == "in":
+            why = oracle_public(c, pub)
+            if why:
+                r.fail("visibility", why, c)
+    replies = Driver().ask(reqs)
+    # second round: the model's events at the model's observer cell
+    ev_reqs, ev_idx = [], []
+    for k, ((c, mode, x, y, pub, rec, err), rep) in enumerate(zip(meta, replies)):
+        if err is None and not rep.startswith(("err", "bad")):
+            f = dict(p.split("=", 1) for p in rep.split(" ") if "=" in p)
+            a, xs, ys, ew, ns, velev, vt = terrain_setup(c)
+            ev_reqs.append(f"vs_events grid={grid_tok(a.astype(np.float64))} vr={f['vr']} vc={f['vc']} ew={f['ew']} ns={f['ns']}")
+            ev_idx.append(k)
+    ev_rep = dict(zip(ev_idx, Driver().ask(ev_reqs))) if ev_reqs else {}
+    for k, ((c, mode, x, y, pub, rec, err), rep) in enumerate(zip(meta, replies)):
+        case = dict(stream="wrapper", terrain=c, mode=mode, x=x, y=y)
+        if err is not None:
+            if rep != "err:" + err:
+                r.disagree("wrapper-glue", case, f"viewshed raised {err}", f"model: {rep[:100]}")
+            r.tag("wrapper:rejected-" + err)
+            continue
+        if rep == "err:ValueError":
+            r.disagree("wrapper-glue", case, "viewshed returned a result", "model: err:ValueError")
+            continue
+        for d in compare_wrapper(c, rec, rep, ev_rep.get(k))[:3]:
+            r.disagree("wrapper-glue", case, "real " + d, "Model/ViewshedWrapper.lean (exact)")
+        r.tag("wrapper:kernel-arguments-compared-exactly")
 
 
 # ---------------------------------------------------------------- fast search (numba)
@@ -1403,7 +1701,7 @@ def seam123(r, n_terr, maxs, tree_level_every):
                tags=["terrain:" + c["kind"], "dtype:" + c["dtype"], f"oe:{c['oe']}", f"te:{c['te']}",
                      "cells:square" if c["dx"] == c["dy"] else "cells:non-square",
                      "observer:" + ("corner" if (c["vr"] in (0, h - 1) and c["vc"] in (0, w - 1)) else "edge" if edge else "inner"),
-                     f"size:{'<=5' if max(h, w) <= 5 else '<=10' if max(h, w) <= 10 else '>10'}"])
+                     f"size:{'<=5' if max(h, w) <= 5 else '<=10' if max(h, w) <= 10 else '>10'}"] + coord_tags(c))
         if why:
             r.fail("visibility", why, c)
             continue
@@ -1543,6 +1841,7 @@ def run(r):
     seam123(r, n_terr=60 if quick else 1000, maxs=9 if quick else 15, tree_level_every=6 if quick else 10)
     if not quick:
         seam123(r, n_terr=20, maxs=30, tree_level_every=100)
+    wrapper_seam(r, n=300 if quick else 3000, maxs=6 if quick else 9)
     n = fast_search(r, 12 if quick else 300, 10 if quick else 16)
     r.tag("fast-reference-terrains", n)
     if not r.failures:
